@@ -67,7 +67,7 @@ def functions():
 def bounds(tier):
     q = tier == "quick"
     return {
-        "retry_pattern_length": 5 if q else 8,
+        "retry_pattern_length": 5 if q else 7,
         "attempt_limit": "SymInt in [0,4]" if q else "SymInt in [0,6]",
         "delays(init,max)": [(0.1, 30.0), (1.0, 1.5), (20.0, 30.0)],
         "reset_script_length": 4 if q else 6,
@@ -90,7 +90,7 @@ def jobs(tier):
         for start in ("num", "earliest", "committed"):
             if start == "committed" and dl != (1.0, 1.5) and q:
                 continue
-            out.append({"fam": "retry", "delays": dl, "start": start, "P": 5 if q else 8, "Lmax": 4 if q else 6})
+            out.append({"fam": "retry", "delays": dl, "start": start, "P": 5 if q else 7, "Lmax": 4 if q else 6})
     for policy in (None, OFFSET_EARLIEST, OFFSET_LATEST):
         for lim in (0, 2):
             out.append({"fam": "reset", "policy": policy, "P": 4 if q else 6, "limit": lim})
